@@ -1,14 +1,29 @@
-"""Per-property configuration of ./check."""
+"""Configuration of ./check: global settings here, one JSON file per property in props/<ID>.json.
 
-GO_BINARIES = ["genconsts", "nriharness"]
-GENERATED = [("genconsts", "Model/Consts.v")]
+Keys of props/<ID>.json:
+  binary          harness binary (harness/cmd/<binary>) that implements the drivers
+  drivers         list of driver names run for this property (each: <binary> -out DIR <driver>)
+  streams         optional list of shard/impl-failure stream names that belong to this property
+                  (a driver shared by several properties tags each stream; default: all)
+  generated       list of [translator binary, Coq file relative to coq/] regenerated on every run
+  run_modules     Coq modules (e.g. "Run.RunC14") that the case files import; built with the cone
+  corr_name       human name of the correspondence (printed in replay files)
+  race            true: thorough tier builds the driver with the Go race detector
+  driver_timeout  seconds
+  level_text, level_note, technique, design_ref   -> MANIFEST.json
+  assumptions, trusted                            -> evidence
+  claimed         false: listed under not_applicable with na_reason
+"""
+import glob, json, os
+
+VERIF = os.path.dirname(os.path.dirname(os.path.abspath(__file__)))
 
 # Standard-library axioms that a theorem may depend on; each is named in DESIGN.md section 8.
 ALLOWED_AXIOMS = []
 
 TRUSTED_BASE = [
     "Coq 8.16.1 kernel and its vm_compute virtual machine (proofs over finite domains and model evaluation); no native_compute, no extraction",
-    "translator harness/cmd/genconsts (go/ast -> Model/Consts.v) and the harness's Coq term printer",
+    "translators harness/cmd/gen_* (go/ast, protoreflect -> generated Coq constants) and the harness's Coq term printer",
     "the correspondence harness: drivers, generators and canonicalisation; agreement on generated cases is testing, the weaker half of the claim",
 ]
 
@@ -16,17 +31,12 @@ BASELINE_OFF_CMD = "cd /repo && for m in . plugins/device-injector plugins/ulimi
 HOOK_COMMITS = []
 ENGINES = [
     {"name": "coq", "path": "coq/", "serves_properties": [], "kind_free_text": "Coq 8.16.1 development: executable Gallina models, reference semantics, proofs; Properties/Cxx.v holds only theorem statements"},
-    {"name": "harness", "path": "harness/", "serves_properties": [], "kind_free_text": "Go module (replace nri => /repo) driving the real implementation; writes Coq case files evaluated by vm_compute (correspondence check) and regenerates Model/Consts.v, Model/Schema.v"},
+    {"name": "harness", "path": "harness/", "serves_properties": [], "kind_free_text": "Go module (replace nri => /repo) driving the real implementation; writes Coq case files evaluated by vm_compute (correspondence check) and regenerates the Coq constants derived from the sources"},
 ]
 NOTES = "All checks: ./check <ID> --tier quick|thorough. See DESIGN.md. Known findings: known_findings.json."
 
-PROPS = {
-    "C14": {
-        "drivers": ["masks"],
-        "run_modules": ["Run.RunC14"],
-        "corr_name": "Run.RunC14.corr_mask / corr_parse (Model.Event.pretty, parse vs api.EventMask.PrettyString, api.ParseEventMask)",
-        "level_text": "Theorems proved in Coq for all inputs: event-mask print/parse round trip over every valid mask (finite domain evaluated completely inside the kernel on tables regenerated from event.go). The model is tied to the code by an exhaustive correspondence run of the real PrettyString/ParseEventMask.",
-        "level_note": "Trusted: Coq kernel + vm_compute, the go/ast translator of the name tables, the correspondence harness. Go aliasing of Copy is observed on the implementation, not proved (partial).",
-        "assumptions": ["event masks are modelled for 0 <= m < 2^31 (EventMask is an int32)"],
-    },
-}
+PROPS = {}
+for f in sorted(glob.glob(os.path.join(VERIF, "props", "C*.json"))):
+    PROPS[os.path.basename(f)[:-5]] = json.load(open(f))
+for e in ENGINES:
+    e["serves_properties"] = sorted(PROPS)
